@@ -189,7 +189,7 @@ def gen_case(rng):
 
 
 def generate(rng, tier):
-    n = 260 if tier == "quick" else 6000
+    n = 900 if tier == "quick" else 12000
     for _ in range(n):
         yield gen_case(rng)
 
@@ -299,8 +299,14 @@ def _flag(x, default):
 
 
 def model_lines(case):
-    font = build_font(case)
-    lines = [tabulate(font, case_names(case))]
+    # the same font the implementation run sorts (a re-opened UFO lists glyphs sharing a code point in another order)
+    tmp = tempfile.mkdtemp(prefix="c20_") if case.get("from_disk") else None
+    try:
+        font = build_font(case, tmp)
+        lines = [tabulate(font, case_names(case))]
+    finally:
+        if tmp is not None:
+            shutil.rmtree(tmp, ignore_errors=True)
     for op in case["ops"]:
         lines.append([Atom("sort"), list(op["names"]),
                       [[Atom(d[0]), _flag(d[1], True), _flag(d[2], False)] for d in op["descs"]]])
